@@ -38,6 +38,11 @@ CHECKS = {
             'For each catalogue program (layered, core) and each sampled annotation assignment z3 proves the rows of the final predicates are unchanged on every database with <=2 rows per table; pairs with identical SQL are counted trivial.',
             'Trusted: lv/sqlsem.py, z3.',
             'DESIGN.md §3 C08', 'sqlsmt'),
+    'C10': ('other',
+            'z3 encoding of QL.StrLiteral regenerated from the source AST on every run (per-character transducer + dialect lexer automaton over N symbolic code points with symbolic length; unsat = every string is emitted as one literal that decodes to itself); CrossHair lemmas for ParseString, flag override / rejection / expansion and scanner string opacity; witnesses replayed on the real StrLiteral, a concrete lexer and real SQLite',
+            'For all 8 dialects and every string of <=12 (24 thorough) code points the emitted literal is one well-formed token of that dialect whose decoded value is the string; double-quoted and triple-quoted Logica literals parse to their body; a user flag value overrides the default, undefined flags are rejected, ${flag} is expanded; string bodies are opaque to the scanner.',
+            'Trusted: dialect lexical rules (SQLite rule validated on real SQLite), z3, CrossHair. Outside: single-quoted literals, exotic control characters, values spelling ${flag}.',
+            'DESIGN.md §3 C10', 'z3k'),
     'C11': ('translation_validation',
             'metamorphic: short and long form of each documented shorthand (AST rewrite at every site) compiled by the real compiler, equivalence of the emitted SQL decided by z3 over a bounded symbolic database; sat models replayed on real SQLite',
             'For each catalogue program (core, agg, sugarbase) and each applicable documented equivalence, z3 proves short form == long form on every database with <=K rows per table; a long form rejected by the compiler is a violation.',
